@@ -166,6 +166,9 @@ def run(chk: Check, model):
         log = T.mk_index(T.mk_attr(I[0], "aux"), T.const("log"))
         new = aux[0].args[0][1][0][1] if aux[0].args[0][0] == "dict" else T.NONE
         f = dict(new[2]) if new[0] == "replace" and new[1] == log else {}
+        if new[0] == "obj" and new[1] == "LogState" and {k for k, _ in new[2]} == set(model.dataclass_fields(model.cls("rl.LogState"))) \
+                and any(x == log for v in dict(new[2]).values() for x in T.walk(v)):
+            f = dict(new[2])  # the new log state spelled as a full construction from the old one's fields
         chk.add("C19.log", "log state read from the stepped graph state and stored back", bool(f) and aux[0].args[0][1][0][0] == T.const("log") and ret[1][0] == aux[0].term,
                 "the log state must be gs.aux['log'].replace(...) stored under 'log' of the returned state", chk.loc(fi))
         used_done = [x for v in f.values() for x in T.walk(v) if x[0] == "or"]
@@ -206,7 +209,9 @@ def run(chk: Check, model):
     chk.add("C19.squash", "scale(unsquash(y)) == y", b == x, f"scale(unsquash(y)) = {T.show(b)[:200]}", chk.loc(f_s))
     chk.add("C19.squash", "scale without squashing is the identity", T.assume(rs.ret, sq, False) == x, f"scale (no squash) = {T.show(T.assume(rs.ret, sq, False))[:100]}", chk.loc(f_s))
     chk.add("C19.squash", "unsquash without squashing clips to [low, high]", T.assume(ru.ret, sq, False) == T.mk_call("jax.numpy.clip", [x, lo, hi]), f"unsquash (no squash) = {T.show(T.assume(ru.ret, sq, False))[:120]}", chk.loc(f_u))
-    fi, r = _r(model, "rl.ClipActionWrapper.step")
+    # (SquashState.unsquash is analysed inline here: clipping through a non-squashing SquashState is the same clip, decided above)
+    fi = model.func("rl.ClipActionWrapper.step")
+    r = SymEval(model, inline=("rl.SquashState.unsquash",)).run_function(fi)
     ret = r.ret
     ok = ret[0] == "call" and T.call_name(ret) == "self._env.step" and len(ret[2]) == 2 and ret[2][0] == S("graph_state")
     if ok:
@@ -243,8 +248,8 @@ def run(chk: Check, model):
         inner = [e for e in r.events if e.kind == "call" and e.name in ("self._env.step", "self._env.reset")]
         it = inner[0].term
         X = X_of(it, r)
-        bm = T.mk_call("jax.numpy.mean", [X], [("axis", T.ZERO)])
-        bv = T.mk_call("jax.numpy.var", [X], [("axis", T.ZERO)])
+        bm = T.mk_reduce(X, "mean", [("axis", T.ZERO)])
+        bv = T.mk_reduce(X, "var", [("axis", T.ZERO)])
         bn = T.mk_index(T.mk_attr(count_src(it), "shape"), T.ZERO)
         om, ov, oc = old
         wm, wv, wc = chan(om, ov, oc, bm, bv, bn)
@@ -265,13 +270,21 @@ def run(chk: Check, model):
         chk.add("C19.moments", "obs step: updated state stored", len(aux) == 1 and ret[1][0] == aux[0].term, "the updated statistics must be stored under aux['norm_obs'] of the returned state", chk.loc(fi))
     fi0, r0 = _r(model, "rl.NormalizeVecObservationWrapper.reset")
     nv = [e for e in r0.events if e.kind == "call" and e.name == "new:NormalizeVec"]
-    if len(nv) == 2:
+    if len(nv) in (1, 2):
         it = [e for e in r0.events if e.kind == "call" and e.name == "self._env.reset"][0].term
         obs = T.mk_index(it, T.ONE)
-        f0 = dict(nv[0].term[2])
+        if len(nv) == 2:
+            f0 = dict(nv[0].term[2])
+        else:
+            # the prior kept in plain locals instead of a throw-away NormalizeVec: its mean / var are the zeros_like / ones_like
+            # terms the updated state is computed from, its count the reference 1e-4 (confirmed by the equality below)
+            z = sorted({x for x in T.walk(nv[0].term) if x[0] == "call" and T.call_name(x) == "jax.numpy.zeros_like"}, key=T.skey)
+            o = sorted({x for x in T.walk(nv[0].term) if x[0] == "call" and T.call_name(x) == "jax.numpy.ones_like"}, key=T.skey)
+            f0 = {"mean": z[0] if len(z) == 1 else T.NONE, "var": o[0] if len(o) == 1 else T.NONE, "count": T.const(T.F(1, 10000))}
+            nv = [nv[0], nv[0]]
         ok = T.const_value(f0.get("count", T.NONE)) == T.F(1, 10000) and T.call_name(f0.get("mean", T.NONE)) == "jax.numpy.zeros_like" and T.call_name(f0.get("var", T.NONE)) == "jax.numpy.ones_like"
         chk.add("C19.moments", "obs reset: prior mean 0, var 1, count 1e-4", ok, f"prior = {T.show(nv[0].term)[:160]}", chk.loc(fi0))
-        wm, wv, wc = chan(f0["mean"], f0["var"], f0["count"], T.mk_call("jax.numpy.mean", [obs], [("axis", T.ZERO)]), T.mk_call("jax.numpy.var", [obs], [("axis", T.ZERO)]), T.mk_index(T.mk_attr(obs, "shape"), T.ZERO))
+        wm, wv, wc = chan(f0["mean"], f0["var"], f0["count"], T.mk_reduce(obs, "mean", [("axis", T.ZERO)]), T.mk_reduce(obs, "var", [("axis", T.ZERO)]), T.mk_index(T.mk_attr(obs, "shape"), T.ZERO))
         f1 = dict(nv[1].term[2])
         chk.add("C19.moments", "obs reset: same update as step", (f1.get("mean"), f1.get("var"), f1.get("count")) == (wm, wv, wc), "the reset-time update must be the same Chan update applied to the prior", chk.loc(fi0))
     else:
